@@ -444,3 +444,16 @@ Definition restrict (c : cfg) (ms : list nat) : cfg :=
      inst := fun k => inst c (nth k ms O);
      args := fun k => if Nat.ltb k (List.length ms) then args c (nth k ms O) else None;
      fails := fun k => fails c (nth k ms O) |}.
+
+(* ---------------------------------------------------------------- errors with a cause link (Wave 13) *)
+(* An action may fail with an explicitly chained error (`raise Outer(...) from inner`): error objects have ids and an
+   optional __cause__ link.  _thread_function_wrapper reports the exception object it caught (`report_id`); the variant
+   that follows __cause__ to its end reports `root_cause`. *)
+Fixpoint root_cause (cause : nat -> option nat) (fuel : nat) (e : nat) : nat :=
+  match fuel with
+  | O => e
+  | S f => match cause e with Some c => root_cause cause f c | None => e end
+  end.
+Definition report_id (cause : nat -> option nat) (e : nat) : nat := e.
+(* what parallel_safe hands the caller when the raised errors are errs (reporting order) and each is reported as f e *)
+Definition run_reporting (f : nat -> nat) (errs : list nat) : option nat := run_with fresh_reporter (map f errs).
